@@ -1369,6 +1369,14 @@ class FortranFile:
                 do_skip = True
             if do_skip:
                 continue
+            # A fixed form comment line holds no statements, whatever its text
+            if (
+                get_full
+                and self.fixed
+                and FRegex.FIXED_COMMENT.match(line)
+                and not FRegex.FIXED_OPENMP.match(line)
+            ):
+                continue
             # Directives are not Fortran statements: the `&&` of an `#if` must
             # not be taken for a continuation that swallows the next line
             if self.preproc and FRegex.PP_ANY.match(line):
